@@ -4,6 +4,18 @@ from vlib import parse_val, vlist, vbytes
 import searchgen as sg
 
 NEED_RG = True
+MANIFEST = dict(
+    text="Coq theorems: the roll buffer (LineBuffer fill/roll/ensure_capacity/consume) is a faithful window of the stream "
+         "for every read history, capacity and growth policy (nothing lost, duplicated or reordered; searchable part ends "
+         "after a terminator unless the stream is exhausted; never out of fuel), and multi-line mode is irrelevant for a "
+         "matcher that cannot match the terminator. The event-level equality ReadByLine = SliceByLine is NOT yet proved: it "
+         "is checked on every run by model = code (roll buffer fed through a hook with the scripted read history, capacities "
+         "1..65, both growth policies, sink stops) and by the oracle reader events = slice events, plus rg --mmap/--no-mmap/"
+         "stdin. D10 fixed; D8 (byte count of an early-ended reader search) known finding.",
+    note="partial proof: Core::roll's re-basing simulation is tested, not proved; trusted: Coq kernel, extraction, driver, "
+         "harness, hook verif_search_reader_raw/verif_buffer_capacity",
+    technique="Coq proof (stream-window invariant of the roll buffer) + extracted-model/implementation correspondence + cross-strategy oracle",
+    design="§7 C02")
 KNOWN_D8 = "EarlyEndByteCount"
 
 
